@@ -1,6 +1,7 @@
 ---- MODULE MCStatsAgg ----
 EXTENDS StatsAgg
 OthersOne == {"echo"}
+OthersFew == {"echo", "pktin", "portstatus"}
 OthersAll == {"echo", "pktin", "portstatus", "barrier", "flowrem", "error", "config"}
 \* one request, reply in up to 6 parts
 T1_flow == <<"flow">>
